@@ -409,6 +409,90 @@ func genSteadyCase(r *vh.Rand, id string) *rcase {
 	return c
 }
 
+// Transport.SendSnapshot end to end: ordinary and witness snapshots, without failure, with a
+// failing GetSnapshotConnection, with SendChunk failing after K delivered chunks
+func genGlueCase(r *vh.Rand, id string) *gcase {
+	c := &gcase{id: id, did: 1 + uint64(r.Intn(3)), cs: 1024 + uint64(r.Intn(2048))}
+	index := 100 + uint64(r.Intn(1000))
+	m := pb.Message{Type: pb.InstallSnapshot, ShardID: uint64(1 + r.Intn(3)), To: uint64(1 + r.Intn(3)), From: uint64(5 + r.Intn(3))}
+	nchunks := 1
+	if r.Chance(1, 3) {
+		fs := hk.NewMemFS()
+		ws, err := hk.GetWitnessSnapshot(fs)
+		if err != nil {
+			panic(err)
+		}
+		c.wb = append([]byte{}, ws[hk.SnapshotHeaderSize:]...)
+		c.wbDesc = "h" + vh.Hex(c.wb)
+		m.Snapshot = pb.Snapshot{Index: index, Term: 1 + uint64(r.Intn(4)), Witness: true}
+	} else {
+		dirp := fmt.Sprintf("/src/g/%s", hk.GetSnapshotDirName(index))
+		mp := path.Join(dirp, hk.GetSnapshotFilename(index))
+		data, desc := makeSnapshotFile(r, sizeChoice(r, int(c.cs)))
+		c.files = append(c.files, fileDef{path: mp, data: data, desc: desc})
+		m.Snapshot = pb.Snapshot{Index: index, Term: 1 + uint64(r.Intn(4)), Filepath: mp, FileSize: uint64(len(data))}
+		for k := r.Intn(3); k > 0; k-- {
+			id := uint64(len(c.files))
+			n := 1 + r.Intn(3*int(c.cs))
+			seed := r.U64() & 0x7fffffff
+			p := path.Join(dirp, fmt.Sprintf("external-file-%d", id))
+			c.files = append(c.files, fileDef{path: p, data: lcgBytes(seed, n), desc: fmt.Sprintf("r%d.%d", seed, n)})
+			m.Snapshot.Files = append(m.Snapshot.Files, &pb.SnapshotFile{Filepath: p, FileSize: uint64(n), FileId: id})
+		}
+		chunks, failure := realSend(c.cs, c.did, c.files, m)
+		if failure != "" {
+			panic("glue case: sender failed")
+		}
+		nchunks = len(chunks)
+	}
+	c.msg = m
+	switch r.Intn(4) {
+	case 0:
+		c.fail = "conn"
+	case 1:
+		c.fail = fmt.Sprintf("chunk%d", r.Intn(nchunks))
+	default:
+		c.fail = "none"
+	}
+	return c
+}
+
+// complete streams of different snapshots (plus duplicates and out-of-order repeats, which
+// are ignored) to be fed by one goroutine per snapshot
+func genParallelCase(r *vh.Rand, id string) *rcase {
+	c := &rcase{id: id, kind: "R", did: 1 + uint64(r.Intn(3)), gc: 3, to: 9, slots: 128, par: true}
+	c.cs = 1024 + uint64(r.Intn(1024))
+	sc := &scenario{c: c}
+	ns := 2 + r.Intn(4)
+	for j := 0; j < ns; j++ {
+		var exts []int
+		for k := r.Intn(3); k > 0; k-- {
+			exts = append(exts, 1+r.Intn(3*int(c.cs)))
+		}
+		// distinct keys: shard/replica/index vary with j
+		if !sc.addStream(r, uint64(1+j%2), uint64(1+(j/2)%2), uint64(5+r.Intn(3)), 100+uint64(j), 1+uint64(r.Intn(4)), r.Intn(5*int(c.cs)), exts) {
+			panic("parallel case: sender failed")
+		}
+	}
+	var lists [][]op
+	for _, s := range sc.streams {
+		ops := append([]op{}, s.chunks...)
+		for k := r.Intn(3); k > 0 && len(ops) > 1; k-- {
+			// repeat an earlier chunk (not chunk 0) somewhere later: it is ignored
+			i := 1 + r.Intn(len(ops)-1)
+			j := i + r.Intn(len(ops)-i)
+			x := ops[i]
+			if x.chunk.ChunkId == 0 {
+				continue
+			}
+			ops = append(ops[:j+1], append([]op{x}, ops[j+1:]...)...)
+		}
+		lists = append(lists, ops)
+	}
+	c.ops = merge(r, lists)
+	return c
+}
+
 // bad file names: Filepath values whose base is not a plain child name
 func genNameCase(r *vh.Rand, id string) *rcase {
 	c := &rcase{id: id, kind: "R", did: 1, gc: 2, to: 4, slots: 128, cs: 2048}
@@ -465,6 +549,12 @@ func gen(a vh.Args) {
 	}
 	for i := 0; i < n/10+4; i++ {
 		w.Printf("%s\n", genSteadyCase(r, fmt.Sprintf("y%d", i)).String())
+	}
+	for i := 0; i < n/8+8; i++ {
+		w.Printf("%s\n", genGlueCase(r, fmt.Sprintf("g%d", i)).String())
+	}
+	for i := 0; i < n/10+6; i++ {
+		w.Printf("%s\n", genParallelCase(r, fmt.Sprintf("p%d", i)).String())
 	}
 	// sender cases whose message disagrees with the files (short read / empty file)
 	for i := 0; i < n/10+1; i++ {
